@@ -66,12 +66,18 @@ IsDirNode(n) == n # 0 /\ sc.kind[n] = "dir"
 L == Len(sc.layers)
 Depth(pos) == Len(pos) - 1
 
+(* a node beneath an unreadable directory cannot be reached by the absolute path a link holds *)
+RECURSIVE BeneathUnreadable(_)
+BeneathUnreadable(n) ==
+  n # 1 /\ LET p == sc.parent[n] IN ~sc.readable[p] \/ BeneathUnreadable(p)
+
 (* what handle_entry makes of the entry at position pos *)
 (* kind: "dir" (pushed, is_dir), "file" (entry, not a directory), "err" (error item)          *)
 Classify(pos) ==
   LET n == Last(pos) IN
   IF sc.kind[n] = "link" /\ sc.follow THEN
      IF sc.target[n] = 0 THEN [kind |-> "err", err |-> "io"]                     \* dangling
+     ELSE IF BeneathUnreadable(sc.target[n]) THEN [kind |-> "err", err |-> "io"]   \* target out of reach
      ELSE IF IsDirNode(sc.target[n]) THEN
         (* walkdir opens the target of a followed link for its loop check: an unreadable target is *)
         (* an error item in place of the entry; a followed link that re-enters a directory on the  *)
